@@ -19,6 +19,7 @@ int main(int argc, char** argv) {
     run::parse_kv(o.space, o.kv);
     run::parse_kv(o.extra, o.kv);
     hx::init_bind();
+    hx::g_fresh_storage = o.kv.count("fresh") && atoi(o.kv.at("fresh").c_str());
     hx::install_throwing_handler();
 
     if (o.driver == "info") {
